@@ -10,6 +10,7 @@ import (
 
 func (rt *runtime) cmplEvaluateNodeExpression(node nodeExpression) Value {
 	verifStep(rt)
+	rt.halting = false
 	// Allow interpreter interruption
 	// If the Interrupt channel is nil, then
 	// we avoid runtime.Gosched() overhead (if any)
@@ -18,7 +19,7 @@ func (rt *runtime) cmplEvaluateNodeExpression(node nodeExpression) Value {
 		goruntime.Gosched()
 		select {
 		case value := <-rt.otto.Interrupt:
-			value()
+			rt.interrupt(value)
 		default:
 		}
 	}
